@@ -1148,6 +1148,9 @@ class SmiV2Parser(AbstractParser):
             raise error.PySmiParserError("Bad grammar near token type %s, value %s" % (p.type, p.value),
                                          lineno=p.lineno)
 
+        # end of input in the middle of a module (truncated file)
+        raise error.PySmiParserError("Unexpected end of input", lineno=self.lexer.lexer.lineno)
+
 
 #
 # Parser grammar relaxation follows.
